@@ -44,7 +44,12 @@ META = {
                   "an unmarked record with the current stamps. A four-package project with a shared module has the record of one "
                   "target per package corrupted and is loaded under three schedules enforced through the loader's observation "
                   "points (free; the victim's module fails before any other package's module starts; it starts after all "
-                  "the others have finished): the failed read must be reported in each, a load that does not return is a hang.",
+                  "the others have finished): the failed read must be reported in each, a load that does not return is a hang. "
+                  "Directed family shared tuples as hashed keys (t1=(x,x), t2=(t1,t1), ... built with the memo, 4 or 6 bytes "
+                  "per level; as dict key, set element, inside a tuple key; controls: top level, dict value, list element): "
+                  "depths 1-12 through the model correspondence with all three unpicklers, 13-18 in process (the decoded "
+                  "value checked in depth steps), 40 (thorough: 255) in a subprocess under a 6 s watchdog: the controls must "
+                  "answer, the hashed shapes do not (known finding dag-tuple-key-hash); a hang anywhere else is a violation.",
     "level_note": "Trusted: Coq kernel; the transcription (validated by the correspondence run only); Go's recover semantics "
                   "(a runtime.Error satisfies the `failure` interface assertion) is validated on the real code by the "
                   "corrupted-input runs, not proved; big.Int.UnmarshalText is modelled in full (base prefixes, underscores); "
@@ -57,7 +62,13 @@ META = {
                   "a byte string that is, strictly decoded, a valid current record without the marker (true -> null / false, "
                   "a duplicated key, a lost `,\"rerun\":true` block) cannot be told from a real record without a checksum: it "
                   "is accepted as up to date and counted (uptodate-valid-unmarked-record); the record format (field names, "
-                  "one object per file) is stated by the harness (c15recordRef), not taken from the loader.",
+                  "one object per file) is stated by the harness (c15recordRef), not taken from the loader. "
+                  "decode_never_hangs_or_nilnil / decode_total are about the decoder's own loop (one step per opcode, at most "
+                  "length+1 steps); the model's dict and set insertion is structural and does not hash, so the cost of "
+                  "hashing in the host value library (go.starlark.net Tuple.Hash walks a tuple DAG as a tree: 2^depth for "
+                  "the memo-built shared tuples of the directed family, known finding dag-tuple-key-hash) is outside the "
+                  "model and the theorems: for those inputs the model answers Ok in depth steps while the implementation "
+                  "does not come back.",
     "design_ref": "DESIGN.md §6 C15",
 }
 
@@ -117,6 +128,41 @@ def sstr(s):
     return p8(0x8c) + p8(len(s)) + s
 
 
+# ---- directed family "shared tuples as hashed keys": with the memo, 4 bytes per level build t1 = (x, x), t2 = (t1, t1), ...:
+# d tuples in memory, 2^d leaves as a tree.  Hashed shapes put the DAG where the host value library hashes it (dict key, set
+# element, inside a tuple that is a key); control shapes put the same DAG where nothing hashes it.
+DAG_HASHED = ["dict-key", "dict-key-two-gets", "tuple-in-dict-key", "set-element"]
+DAG_CONTROL = ["top", "dict-value", "list-element"]
+KNOWN_DAG_HASH = "dag-tuple-key-hash"
+DAG_MODEL_DEPTH = 12          # depths 1..12: ordinary directed inputs (model <-> implementation, all three unpicklers)
+DAG_INPROC_DEPTH = 18         # depths 13..18: in process, decoded value checked in d steps
+DAG_CHILD_DEPTH = 40          # in a subprocess under a watchdog
+
+
+def dag_tuple(d):
+    """leaves t_d on the stack (x = 1): MEMOIZE, BINGET i, TUPLE2 per level"""
+    return b"K\x01" + b"".join(b"\x94h" + p8(i) + b"\x86" for i in range(d))
+
+
+def dag_input(shape, d):
+    if shape == "top":
+        return dag_tuple(d) + b"."
+    if shape == "dict-key":
+        return b"}(" + dag_tuple(d) + b"K\x02u."
+    if shape == "dict-key-two-gets":      # two BINGETs per level (6 bytes), the levels stay on the stack below the dict
+        return (b"K\x01\x94" + b"".join(b"h" + p8(i) + b"h" + p8(i) + b"\x86\x94" for i in range(d))
+                + b"}(h" + p8(d) + b"K\x02u.")
+    if shape == "tuple-in-dict-key":
+        return b"}(" + dag_tuple(d) + b"K\x07\x86K\x02u."
+    if shape == "set-element":
+        return b"\x8f(" + dag_tuple(d) + b"\x90."
+    if shape == "dict-value":
+        return b"}(K\x02" + dag_tuple(d) + b"u."
+    if shape == "list-element":
+        return b"](" + dag_tuple(d) + b"e."
+    raise ValueError(shape)
+
+
 def directed():
     f1 = b"G" + bytes.fromhex("000000000000f03f")       # 1.0 (little endian as the codec writes it)
     nan1 = b"G" + bytes.fromhex("010000000000f87f")
@@ -167,6 +213,9 @@ def directed():
                 b"\xd9\xa1", b"1\x00", b"\x00", b"9" * 60, b"0" * 40, b"-00", b"0_0", b"0_8", b"1a", b"0b12", b"0o78"]:
         cases.append(b"I" + txt + b"\n.")
     cases += [b"I1", b"I", b"I\n.", b"I1\n", b"I1\n2\n."]
+    for d in range(1, DAG_MODEL_DEPTH + 1):
+        for shape in DAG_HASHED + DAG_CONTROL:
+            cases.append(dag_input(shape, d))
     return cases
 
 
@@ -202,6 +251,10 @@ def env_like(rng):
     out.append(([("O", D, b"Recursive", [])], R(0)))
     out.append(([("O", D, b"Recursive", [S("f"), I(3)])], R(0)))
     out.append(([("O", D, b"Recursive", [S("f"), I(3), I(4)])], R(0)))
+    out.append(([("O", D, b"Mandatory", [])], R(0)))
+    out.append(([("O", D, b"Mandatory", [I(1)])], R(0)))
+    out.append(([("O", D, b"Unassigned", [])], R(0)))
+    out.append(([("O", D, b"Unassigned", [S("x")])], R(0)))
     out.append(([("O", D, b"Builtin", [])], T(R(0), R(0))))
     out.append(([("O", D, b"Builtin", [I(1)])], R(0)))
     out.append(([("O", D, b"Nope", [])], R(0)))
@@ -375,6 +428,40 @@ def run_source_harness(ctx, datas, cases):
     return rc, o, res, oracles, died
 
 
+def run_dag_harness(ctx, quick):
+    """the deep members of the family: returns (rc, output, [(shape, depth, unp, where, bytes, outcome, microseconds, what)])"""
+    cases = []
+    for d in range(DAG_MODEL_DEPTH + 1, DAG_INPROC_DEPTH + 1):
+        for shape in DAG_HASHED + DAG_CONTROL:
+            for unp in (0, 1):
+                cases.append((shape, d, unp, "inproc"))
+    for shape in DAG_HASHED + DAG_CONTROL:
+        cases.append((shape, DAG_CHILD_DEPTH, 0, "child:6"))
+    if not quick:
+        for shape in DAG_HASHED + DAG_CONTROL:
+            cases.append((shape, 255, 1, "child:6"))
+        for d in (20, 22, 24):                       # the doubling, measured
+            cases.append(("dict-key", d, 0, "child:120"))
+    inp, outp = os.path.join(ctx.tmp, "c15dag.in"), os.path.join(ctx.tmp, "c15dag.out")
+    with open(inp, "w") as f:
+        for i, (shape, d, unp, where) in enumerate(cases):
+            f.write("dag\t%d\t%s\t%d\t%d\t%s\t%s\n" % (i, shape, d, unp, where, dag_input(shape, d).hex()))
+    files = {"zz_verif_c07_test.go": os.path.join(HARNESS, "overlay/pickle/zz_verif_c07_test.go"),
+             "zz_verif_c15_dag_test.go": os.path.join(HARNESS, "overlay/pickle/zz_verif_c15_dag_test.go")}
+    rc, o = ctx.go_overlay_test("pickle", files, "^TestVerifC15Dag$", {"VERIF_IN": inp, "VERIF_OUT": outp})
+    got = {}
+    if os.path.exists(outp):
+        for line in open(outp, errors="replace"):
+            f = line.rstrip("\n").split("\t")
+            if f[0] == "dag" and len(f) == 5:
+                got[int(f[1])] = f
+    res = []
+    for i, (shape, d, unp, where) in enumerate(cases):
+        f = got.get(i, ["dag", str(i), "no-answer", "0", "-"])
+        res.append((shape, d, unp, where, dag_input(shape, d), f[2], int(f[3]), f[4]))
+    return rc, o, res
+
+
 def src_how(mode, k):
     if mode.startswith("b64:"):
         return ("pickle.NewDecoder(base64.NewDecoder(base64.StdEncoding, r), unpickler).Decode() where r holds the standard "
@@ -491,6 +578,45 @@ def run_inner(ctx):
                       {"theorem_or_correspondence": "C15 failing-source harness (pickle)", "output": o[-3000:]}, found_input=False)
         return
     ctx.log("failing sources: %d cases over %d byte strings in %.1fs, %d oracle failures" % (len(scases), len(sdatas), time.time() - t0, len(oracles5)))
+
+    # pass 2c: shared tuples as hashed keys, the deep members (depths 1..12 are ordinary directed inputs above)
+    t0 = time.time()
+    rc, o, dagres = run_dag_harness(ctx, quick)
+    if rc != 0:
+        ctx.log(o[-3000:])
+        ctx.violation("shared-tuple harness failed to build or run (exit %d)" % rc,
+                      {"theorem_or_correspondence": "C15 shared-tuple harness (pickle)", "output": o[-3000:]}, found_input=False)
+        return
+    dag_dist, dag_times, known_hangs = {}, {}, []
+    for shape, d, unp, where, b, outcome, us, what in dagres:
+        kind = "hashed" if shape in DAG_HASHED else "control"
+        k = "dag:%s:%s:%s" % (kind, "inproc" if where == "inproc" else "child", outcome)
+        dag_dist[k] = dag_dist.get(k, 0) + 1
+        if shape == "dict-key" and unp == 0 and outcome == "ok":
+            dag_times[d] = us
+        replay = {"oracle": "dag-" + outcome, "input_hex": b.hex(), "shape": shape, "depth": d,
+                  "unpickler": ["nil", "object-preserving test unpickler"][unp], "microseconds": us,
+                  "how": "pickle.NewDecoder(bytes.NewReader(input), unpickler).Decode() "
+                         + ("in process" if where == "inproc" else "in a subprocess, %s s watchdog" % where[6:])
+                         + "; input = dag_input(%r, %d) of checks/C15.py" % (shape, d)}
+        if outcome == "ok" and what == "dag:%d" % d:
+            continue
+        if outcome == "hang" and kind == "hashed" and where != "inproc" and d > 24:
+            known_hangs.append((shape, d, len(b), replay))
+            continue
+        ctx.violation("pickle Decode of a %d-level shared tuple as %s (%d input bytes): %s%s"
+                      % (d, shape, len(b), outcome, "" if outcome != "ok" else ", but the decoded value is not the shared tuple (%s)" % what),
+                      replay)
+    if known_hangs:
+        # the decoder has finished with the input; the time goes into hashing the key in the host value library
+        ctx.violation("pickle Decode does not return within the watchdog: a shared tuple of %s levels as %s (%s input bytes)"
+                      % ("/".join(sorted({str(h[1]) for h in known_hangs})), ", ".join(dict.fromkeys(h[0] for h in known_hangs)),
+                         "-".join(str(n) for n in sorted({min(h[2] for h in known_hangs), max(h[2] for h in known_hangs)}))),
+                      dict(known_hangs[0][3], all_inputs=[{"shape": h[0], "depth": h[1], "input_hex": h[3]["input_hex"]} for h in known_hangs]),
+                      key=KNOWN_DAG_HASH)
+    ctx.log("shared tuples as hashed keys: %d deep cases in %.1fs: %s; dict key decoded in %s"
+            % (len(dagres), time.time() - t0, dict(sorted(dag_dist.items())),
+               ", ".join("%d levels: %d us" % (d, dag_times[d]) for d in sorted(dag_times))))
 
     # pass 3: package dawn (real envUnpickler, diffEnv reasons), then the record layer
     inp = os.path.join(ctx.tmp, "c15env.in")
@@ -687,13 +813,16 @@ def run_inner(ctx):
         dist["reason"] = dist.get("reason", 0) + 1
     dist["skipped:declared-length-exceeds-input"] = skipped
     dist.update(rec_dist)
+    dist.update(dag_dist)
+    dist["dag:dict-key:microseconds-by-depth " + " ".join("%d:%d" % (d, dag_times[d]) for d in sorted(dag_times))] = len(dag_times)
 
-    ctx.coverage["evaluations"] = len(meta) + nrec + nfault
+    ctx.coverage["evaluations"] = len(meta) + nrec + nfault + len(dagres)
     ctx.coverage["distinct_nontrivial"] = len(nontrivial)
     ctx.coverage["rule"] = ("%d valid encodings (scalars at width boundaries, containers, aliasing, dawn-shaped host objects well- and "
                             "ill-formed, random graphs); every truncation, %s single-byte deletions and opcode-weighted substitutions "
                             "of them; %d opcode-weighted random strings <= 64 bytes; %d directed strings (key equality, mark "
-                            "placement, INT text grammar, unknown opcodes); each decoded with nil / object-preserving / real "
+                            "placement, INT text grammar, unknown opcodes, memo-built shared tuples of 1-12 levels as dict key / "
+                            "set element / inside a tuple key / unhashed); each decoded with nil / object-preserving / real "
                             "envUnpickler; inputs whose declared 4-byte length exceeds the input size are skipped (%d); %d decodings "
                             "from failing sources over %d of these byte strings (valid + directed: sticky failure after every "
                             "prefix with both unpicklers, five other failure modes after every / 24 sampled prefixes, one damaged "
